@@ -98,7 +98,10 @@ def check_c01(run: Run) -> None:
         run.v('C01', 'physical-malformed', e.kind, str(e))
         return
     ph = run.phys
-    sul = run.spec.get('sul', {})
+    sul = dict(run.spec.get('sul', {}))
+    for i, op in enumerate(run.spec.get('ops', [])):     # label fields re-assigned later (storage_unit_label.<field> = ...)
+        if op.get('op') == 'set_sul' and run.built is not None and i < len(run.built.outcomes) and run.built.outcomes[i][0] == 'ok':
+            sul[op['field']] = op['value']
     seq = sul.get('sequence_number', 1)
     mx = sul.get('max_record_length', 8192)
     ident = sul.get('set_identifier', 'MAIN-STORAGE-UNIT')
